@@ -24,6 +24,7 @@ import (
 	"strings"
 	"testing"
 
+	"verifsim/choice"
 	"verifsim/gen/conc"
 	"verifsim/gen/skel"
 	"verifsim/gen/tmpl"
@@ -35,7 +36,7 @@ import (
 
 func TestC30(t *testing.T) {
 	loadCorpus()
-	harness.Main(t, harness.Check{Prop: "C30", Exec: exec, ShrinkBudget: 150})
+	harness.Main(t, harness.Check{Prop: "C30", Exec: exec, ShrinkBudget: 150, FreshProcess: true})
 }
 
 type source struct {
@@ -194,9 +195,51 @@ func firstDiff(a, b string) string {
 	return "no difference"
 }
 
+// typedProgram generates a sequential program around named types over the
+// basic kinds, untyped constants converted to them, struct types with
+// unexported fields, interface conversions and type switches: the places
+// where the type checker keeps per-type state (shared predeclared constants,
+// package indexes in field names).
+func typedProgram(s *choice.Stream) string {
+	var b strings.Builder
+	b.WriteString("package main\n\ntype B bool\ntype I int\ntype F float64\ntype S string\ntype T struct {\n\tx int\n\ts string\n}\ntype U struct {\n\tA int\n\tb B\n}\n\nfunc main() {\n")
+	n := 2 + s.N(7)
+	for k := 0; k < n; k++ {
+		switch s.N(11) {
+		case 0:
+			fmt.Fprintf(&b, "\tx%d := true\n\tvar i%d interface{} = x%d\n\tswitch i%d.(type) {\n\tcase bool:\n\t\tprintln(\"bool\")\n\tcase B:\n\t\tprintln(\"B\")\n\t}\n", k, k, k, k)
+		case 1:
+			fmt.Fprintf(&b, "\tvar b%d B = %v\n\tprintln(bool(b%d))\n", k, s.Bool(), k)
+		case 2:
+			fmt.Fprintf(&b, "\tvar n%d I = %d\n\tvar j%d interface{} = n%d\n\t_, ok%d := j%d.(int)\n\tprintln(ok%d)\n", k, s.N(9), k, k, k, k, k)
+		case 3:
+			fmt.Fprintf(&b, "\tt%d := T{%d, \"a\"}\n\tvar k%d interface{} = t%d\n\tif v, ok := k%d.(T); ok {\n\t\tprintln(\"T\", v.x)\n\t}\n", k, s.N(9), k, k, k)
+		case 4:
+			fmt.Fprintf(&b, "\tu%d := U{A: %d, b: false}\n\tu%d.b = true\n\tprintln(u%d.A, bool(u%d.b))\n", k, s.N(9), k, k, k)
+		case 5:
+			fmt.Fprintf(&b, "\tconst c%d = false\n\tvar d%d B = c%d\n\tvar e%d = c%d\n\tprintln(bool(d%d), e%d)\n", k, k, k, k, k, k, k)
+		case 6:
+			fmt.Fprintf(&b, "\tvar f%d F = 1.5\n\tvar g%d S = \"s\"\n\tvar h%d interface{} = f%d\n\tswitch h%d.(type) {\n\tcase float64:\n\t\tprintln(\"float64\")\n\tcase F:\n\t\tprintln(\"F\", len(g%d))\n\t}\n", k, k, k, k, k, k)
+		case 7:
+			fmt.Fprintf(&b, "\ty%d := false || true\n\tvar z%d B = true && B(y%d)\n\tprintln(y%d, bool(z%d))\n", k, k, k, k, k)
+		case 8:
+			fmt.Fprintf(&b, "\tm%d := map[B]I{true: 1, false: 2}\n\tprintln(int(m%d[true]), len(m%d))\n", k, k, k)
+		case 9:
+			fmt.Fprintf(&b, "\ttype L%d struct {\n\t\tp, q int\n\t}\n\tl%d := []L%d{{1, 2}, {3, %d}}\n\tprintln(l%d[1].q)\n", k, k, k, s.N(9), k)
+		case 10:
+			fmt.Fprintf(&b, "\tvar a%d interface{} = struct{ v B }{true}\n\t_, ok%d := a%d.(struct{ v B })\n\tprintln(ok%d)\n", k, k, k, k)
+		}
+	}
+	b.WriteString("}\n")
+	return b.String()
+}
+
 func pickSource(r *harness.Run) source {
 	s := r.S
-	switch s.Pick(5, 3, 1, 1) {
+	switch s.Pick(5, 3, 1, 1, 3) {
+	case 4:
+		return source{name: "generated typed program", program: true, files: map[string][]byte{"main.go": []byte(typedProgram(s))}, pkgs: []string{"main"},
+			opts: &scriggo.BuildOptions{Packages: native.Packages{}}}
 	case 1:
 		set := tmpl.Gen(s, tmpl.Options{Feature: r.Feature})
 		return source{name: "generated template set", files: set.FilesBytes(), root: set.Main, vars: set.Vars,
